@@ -83,6 +83,10 @@ AllItems == {
   UTerm("bad_dim", "AB", "bad", << <<"ka", 1>>, <<"ka", 1>> >>),      \* denotes A^2, not A*B
   UTerm("sq", "A2", "sq", << <<"ha", 1>>, <<"ka", 1>> >>),
   UTerm("ppka", "MpA", "ppka", << <<"p", 1>>, <<"ka", -1>> >>),
+  UTerm("kbc", "A", "kbc", << <<"ka", 1>>, <<"b", 1>>, <<"cb", -1>> >>),   \* two convertible units, the later one with exponent -1
+  UTerm("kbc2", "A", "kbc2", << <<"cb", 2>>, <<"ka", 1>>, <<"b", -2>> >>),
+  UDerive("kacb_dup", "AB", "ka", <<"ka", "cb">>),                         \* valid definition, symbol already taken
+  UTerm("sq_dup", "A2", "a", << <<"ha", 1>>, <<"ka", 1>> >>),              \* valid definition, symbol already taken
   UDerive("ka2", "A2", "ka2", <<"ka">>),
   UDerive("kacb", "AB", "kacb", <<"ka", "cb">>),
   UDerive("arity", "AB", "w1", <<"ka">>),                   \* wrong number of base units
@@ -92,7 +96,7 @@ AllItems == {
   UDerive("qpa", "MpA", "qpa", <<"q", "a">>),
   OMul("m_ka_b", "ka", "b"),   OMul("m_b_ka", "b", "ka"),
   OMul("m_ka_ka", "ka", "ka"), OMul("m_a_ha", "a", "ha"),
-  OMul("m_ka_cb", "ka", "cb"), OMul("m_b_bi", "b", "bi"),
+  OMul("m_ka_cb", "ka", "cb"), OMul("m_b_bi", "b", "bi"), OMul("m_ha_ka", "ha", "ka"),
   OMul("m_apb_b", "apb", "b"), OMul("m_ppa_a", "ppa", "a"), OMul("m_ppa_ka", "ppa", "ka"),
   OMul("m_p_a", "p", "a"),     OMul("m_p_q", "p", "q"),
   ODiv("d_ka_b", "ka", "b"),   ODiv("d_a2_ka", "a2", "ka"), ODiv("d_ka_ha", "ka", "ha"),
